@@ -38,7 +38,8 @@ Fixpoint sel (k : string) (l : list sexp) : list (list sexp) :=
 (* nameDef: identifier and optional original name *)
 Inductive decl_nd : sexp -> str -> option str -> Prop :=
 | dn_plain a : decl_nd (Atom a) a None
-| dn_rename k a s : is_kw "rename" k = true -> decl_nd (SList [k; Atom a; Str s]) a (Some s).
+| dn_rename k a s v : is_kw "rename" k = true -> unescape_value s = Ok v ->   (* %34% in the text is the double quote *)
+                       decl_nd (SList [k; Atom a; Str s]) a (Some v).
 
 Definition display (i : str) (o : option str) : str := match o with Some s => s | None => i end.
 
@@ -194,7 +195,7 @@ Definition denote_file (d : sexp) (n : nvfile) : Prop := denote_file_with denote
 Definition nd_names (nd : sexp) : str * str :=
   match nd with
   | Atom a => (a, a)
-  | SList [_; Atom a; Str s] => (a, s)
+  | SList [_; Atom a; Str s] => (a, match unescape_value s with Ok v => v | Err _ => [] end)
   | _ => ([], [])
   end.
 Definition net_names (args : list sexp) : net pd :=
